@@ -709,6 +709,11 @@ func isNumeric(sys System, s string) (int64, bool) {
 			return 0, false
 		}
 	}
+	// An identifier such as "-1" is alphanumeric (hyphens are letters
+	// here), not a negative number.
+	if s == "" || s[0] < '0' || '9' < s[0] {
+		return 0, false
+	}
 	var (
 		n   int64
 		err error
